@@ -82,6 +82,10 @@ HAND_DOCS = [
     # list and must keep applying the alias options)
     "base: &m {x: 1, a: a}\nd:\n  - {<<: *m, b: 1}\n  - {<<: *m, x: b}\n",
     "k: {&j a: 1}\nd: [{*j : x, b: a}, [{*j : b}]]\n",
+    # one anchor name used in KEY position and in VALUE position (the alias bookkeeping is shared between the two kinds)
+    "&k a: x\nb: *k\nv: &v 1\nm: {*v : a, x: *v}\n",
+    # an anchor defined INSIDE an anchored hash, merged elsewhere (the anchor table has to descend into anchored containers)
+    "base: &m\n  x: &j {a: 1, b: a}\nd:\n  k: {<<: *j, x: b}\n",
     # sequences in sequences below keys (expansion has to reach the innermost leaves)
     "a: [[a, [b]], {x: [1, {b: a}]}]\nb: {x: [[x]], 1: [[]]}\n",
 ]
